@@ -77,7 +77,7 @@ static std::string esc(const std::string &s)
 int lib_depth = 0;
 static const size_t LT = 1u << 18;
 static struct { const void *p; size_t n; } ltab[LT];
-static size_t llive = 0, lbytes = 0;
+static size_t llive = 0, lbytes = 0, ltomb = 0;
 static const void *const TOMB = (const void *) 1;
 static inline size_t lhash(const void *p) { return ((uintptr_t) p >> 4) * 0x9e3779b97f4a7c15ULL >> 46; }
 static void hook_malloc(const volatile void *p, size_t n)
@@ -85,7 +85,7 @@ static void hook_malloc(const volatile void *p, size_t n)
 	if (lib_depth <= 0 || !p) return;
 	size_t i = lhash((const void *) p) & (LT - 1);
 	for (size_t k = 0; k < LT; ++k, i = (i + 1) & (LT - 1)) {
-		if (ltab[i].p == 0 || ltab[i].p == TOMB) { ltab[i].p = (const void *) p; ltab[i].n = n; ++llive; lbytes += n; return; }
+		if (ltab[i].p == 0 || ltab[i].p == TOMB) { if (ltab[i].p == TOMB) --ltomb; ltab[i].p = (const void *) p; ltab[i].n = n; ++llive; lbytes += n; return; }
 	}
 }
 static void hook_free(const volatile void *p)
@@ -94,10 +94,23 @@ static void hook_free(const volatile void *p)
 	size_t i = lhash((const void *) p) & (LT - 1);
 	for (size_t k = 0; k < LT; ++k, i = (i + 1) & (LT - 1)) {
 		if (ltab[i].p == 0) return;
-		if (ltab[i].p == (const void *) p) { ltab[i].p = TOMB; --llive; lbytes -= ltab[i].n; return; }
+		if (ltab[i].p == (const void *) p) {
+			ltab[i].p = TOMB; --llive; lbytes -= ltab[i].n; ++ltomb;
+			// tombstones lengthen every probe sequence: reclaim them whenever nothing is tracked any more
+			if (!llive && ltomb > 2048) { memset(ltab, 0, sizeof ltab); ltomb = 0; }
+			else if (ltomb > LT / 2) {      // still tracking something: rebuild in place
+				static struct { const void *p; size_t n; } keep[4096]; size_t nk = 0;
+				for (size_t j = 0; j < LT && nk < 4096; ++j) if (ltab[j].p && ltab[j].p != TOMB) { keep[nk].p = ltab[j].p; keep[nk].n = ltab[j].n; ++nk; }
+				if (nk == llive) {
+					memset(ltab, 0, sizeof ltab); ltomb = 0;
+					for (size_t j = 0; j < nk; ++j) { size_t h = lhash(keep[j].p) & (LT - 1); while (ltab[h].p) h = (h + 1) & (LT - 1); ltab[h].p = keep[j].p; ltab[h].n = keep[j].n; }
+				}
+			}
+			return;
+		}
 	}
 }
-void ledger_reset() { memset(ltab, 0, sizeof ltab); llive = 0; lbytes = 0; }
+void ledger_reset() { memset(ltab, 0, sizeof ltab); llive = 0; lbytes = 0; ltomb = 0; }
 size_t ledger_live() { return llive; }
 size_t ledger_live_bytes() { return lbytes; }
 bool ledger_is_live(const void *p)
@@ -303,7 +316,7 @@ static int run_job(const std::vector<std::string> &jobs, int job, Tier tier, con
 		sl->has_skip = 1;
 	}
 	flush_section(*r, job, false);
-	sl->fault = 1;
+	sl->fault = sig == SIGALRM ? 2 : 1;
 	return 3;
 }
 
@@ -437,11 +450,19 @@ int main(int argc, char **argv)
 		++serial; ++running; slot_of[pid] = si;
 	};
 
+	std::map<int, int> hangs;
 	while (true) {
-		while (!free_slots.empty() && !forced.empty()) { int j = forced.front(); forced.pop_front(); spawn(j); }
-		while (!free_slots.empty() && sh->next_job.load() < njobs && running < workers) spawn(-1);
-		if (running == 0 && forced.empty()) break;
-		int st = 0; pid_t pid = waitpid(-1, &st, 0);
+		bool late = sh->deadline > 0 && now() > sh->deadline + 20;      // past the deadline: no more (re)starts
+		if (late && !forced.empty()) { for (int j : forced) { fprintf(pf, "J %d 1 0\nN 0 0 0 0\nC incomplete:deadline (job dropped after a fault)\t1\nE %d\n", j, j); ++abandoned; } forced.clear(); }
+		while (!late && !free_slots.empty() && !forced.empty()) { int j = forced.front(); forced.pop_front(); spawn(j); }
+		while (!late && !free_slots.empty() && sh->next_job.load() < njobs && running < workers) spawn(-1);
+		if (running == 0 && (forced.empty() || late)) break;
+		int st = 0; pid_t pid = waitpid(-1, &st, (sh->deadline > 0) ? WNOHANG : 0);
+		if (pid == 0) {
+			// poll so that workers stuck far beyond the deadline (hang inside one case) can be ended
+			if (sh->deadline > 0 && now() > sh->deadline + 3 * hang_s + 60) { for (auto &w : slot_of) kill(w.first, SIGKILL); }
+			usleep(20000); continue;
+		}
 		if (pid < 0) { if (errno == EINTR) continue; break; }
 		auto it = slot_of.find(pid);
 		if (it == slot_of.end()) continue;
@@ -473,7 +494,9 @@ int main(int argc, char **argv)
 				skip[job].insert(Vec(s.res, s.res + s.reslen));
 			}
 			if (job >= 0) {
-				if (++faults[job] > (resume.count(job) ? 4000 : 40)) { fprintf(pf, "J %d 1 0\nN 0 0 0 0\nC incomplete:too many faults\t1\nE %d\n", job, job); ++abandoned; }
+				bool washang = WIFEXITED(st) && WEXITSTATUS(st) == 3 && s.fault == 2;
+				if (washang) ++hangs[job];
+				if (++faults[job] > (resume.count(job) ? 4000 : 40) || hangs[job] > 20) { fprintf(pf, "J %d 1 0\nN 0 0 0 0\nC incomplete:too many faults\t1\nE %d\n", job, job); ++abandoned; }
 				else forced.push_back(job);
 			}
 		}
